@@ -97,6 +97,9 @@ func (p *Impl) Prepare(dir string, pkgPath ...string) (err error) {
 func (p *Impl) Find(dir, pkgPath string) (f io.ReadCloser, err error) {
 	val, ok := p.cache.Load(pkgPath)
 	if !ok || isDirty(&f, pkgPath, val, p.h) {
+		if ok { // drop the stale entry, so that a failed re-listing can't serve it
+			p.cache.CompareAndDelete(pkgPath, val)
+		}
 		err = p.Prepare(dir, pkgPath)
 		if val, ok = p.cache.Load(pkgPath); ok {
 			return os.Open(val.(*pkgCache).expfile)
